@@ -345,8 +345,9 @@ def _explore(out, tier, seed, facts, replay=None):
             want_ = []
             for k_, o_, mem_ in rows_:
                 pres_ = [v_ for v_ in mem_ if v_ is not None]
-                if pres_:
-                    want_.append(sum(1 for v_ in pres_ if v_ <= t_) / float(len(pres_)))
+                want_.append(sum(1 for v_ in pres_ if v_ <= t_) / float(len(pres_)) if pres_ else float("nan"))      # no member present: no probability
+            got_ = [g_ for g_ in got_ if not math.isnan(g_)]
+            want_ = [w_ for w_ in want_ if not math.isnan(w_)]
             if len(got_) != len(want_) or any(abs(g_ - w_) > 1e-6 for g_, w_ in zip(got_, want_)):
                 out.violation("ensemble-event-probability", "threshold %r, members per case %r: the probabilities are %r; the share of present members with x <= t is %r (a member equal to t belongs to 'below=')"
                               % (t_, [m_ for _, _, m_ in rows_], got_, want_), {"file": open(fe_).read(), "threshold": t_})
